@@ -444,7 +444,10 @@ func (c *Client) marshalParams(ctx context.Context, method string, params any) (
 	if err != nil {
 		return nil, err
 	}
-	if fb := firstByte(pbits); fb != '[' && fb != '{' && !isNull(pbits) {
+	if isNull(pbits) {
+		return nil, nil // a null value means no parameters; omit the member
+	}
+	if fb := firstByte(pbits); fb != '[' && fb != '{' {
 		// JSON-RPC requires that if parameters are provided at all, they are
 		// an array or an object.
 		return nil, &Error{Code: InvalidRequest, Message: "invalid parameters: array or object required"}
